@@ -34,7 +34,11 @@ import (
 // is skipped whenever one of its preconditions fails (recursion, defer,
 // labels, variadics, methods of generic types, names that would be captured,
 // types that cannot be spelled in the caller's file; a generic function is
-// inlined per call site with the type arguments of that call, genericInstance). What was inlined is reported in the
+// inlined per call site with the type arguments of that call, genericInstance). A function literal that closes over
+// variables of the caller and is passed for a parameter the helper only ever calls (an iterator with a callback:
+// `n.each(func(x *T) error { acc = ...; return err })`) is expanded at the calls of that parameter in the inlined
+// body, by the same rewriting, and is then no longer evaluated: the callback's body is part of the caller's loop
+// again and the variables it updates are plain locals (argLitBindable). What was inlined is reported in the
 // evidence. Inlining is semantics preserving, so a violation remains a
 // violation on the normalised program.
 
@@ -61,11 +65,11 @@ type normalizer struct {
 	closureStmt  map[types.Object]ast.Stmt // the declaring statement, if it is a plain member of a statement list
 	closureCalls map[types.Object]int      // number of call sites of the closure in its function
 	keepClosures bool                      // fall-back mode: never remove a literal
-	src     map[string][]byte
-	n       int
-	busy    map[types.Object]bool
-	extra   map[string]bool // pinned functions that are inlined as well while a flat view is generated
-	Log     []string
+	src          map[string][]byte
+	n            int
+	busy         map[types.Object]bool
+	extra        map[string]bool // pinned functions that are inlined as well while a flat view is generated
+	Log          []string
 	// [std] normalize_std.go: predicate literals that were expanded in place (their text is gone from the file)
 	consumed map[*ast.FuncLit]bool
 	// function-typed parameters of a helper being inlined whose argument is a method value `x.m` of a stable
@@ -75,6 +79,10 @@ type normalizer struct {
 	// at the site being expanded, and the tables found so far
 	tables    map[types.Object]*funcTable
 	tableMemo map[*types.Var]*funcTable
+	// function-typed parameters of a helper being inlined whose argument is a function literal written at the
+	// call: while the helper's body is rendered the parameter is registered in closure/decl/declPkg like a local
+	// closure, so that its calls in the body are expanded into the literal's body (argLitBinding)
+	argLit map[types.Object]bool
 }
 
 type textEdit struct {
@@ -455,6 +463,19 @@ func (nz *normalizer) captured(callee types.Object, callerPk *packages.Package, 
 			// a variable the closure captures from the enclosing function: at the call site the
 			// name must still denote the same variable
 			if obj.Pos() < lit.Pos() || obj.Pos() >= lit.End() {
+				if nz.argLit[callee] {
+					// the literal is an argument of a helper that is being inlined where the literal was
+					// written: the variable is in scope there; it is lost only if a local name of the
+					// helper (receiver, parameter, result, local in scope at the call of the parameter)
+					// hides it. Package-level and predeclared names are outer to the caller's variable.
+					if sc := callerPk.Types.Scope().Innermost(at); sc != nil {
+						if _, o := sc.LookupParent(id.Name, at); o != nil && o != obj && o.Parent() != types.Universe && !(o.Pkg() != nil && o.Parent() == o.Pkg().Scope()) {
+							bad = true
+							return false
+						}
+					}
+					return true
+				}
 				if sc := callerPk.Types.Scope().Innermost(at); sc != nil {
 					if _, o := sc.LookupParent(id.Name, at); o != obj {
 						bad = true
@@ -610,6 +631,15 @@ func (nz *normalizer) expansion(pk *packages.Package, file *ast.File, site *inli
 		nz.Log = append(nz.Log, fmt.Sprintf("not inlined: %s (generic: %s at %s)", objName(callee), whyG, nz.fset.Position(site.call.Pos())))
 		return "", nil, false
 	}
+	if nz.argLit[callee] {
+		// a parameter standing for a literal argument: the temporaries get the types the LITERAL declares (the
+		// parameter's own type may mention type parameters of the helper that the inlined text never names)
+		lsig, isSig := nz.declPkg[callee].TypesInfo.TypeOf(nz.closure[callee]).(*types.Signature)
+		if !isSig || lsig.Params().Len() != sig.Params().Len() || lsig.Results().Len() != sig.Results().Len() || mentionsTypeParam(lsig, map[types.Type]bool{}) {
+			return "", nil, false
+		}
+		tsig = lsig
+	}
 	nz.n++
 	id := fmt.Sprintf("__inl%d", nz.n)
 	var sb strings.Builder
@@ -660,9 +690,27 @@ func (nz *normalizer) expansion(pk *packages.Package, file *ast.File, site *inli
 		return "", nil, false // f(g()) with a multi-value g
 	}
 	var binds strings.Builder
+	var argLits []boundLit
 	for i, a := range site.call.Args {
 		pt := tsig.Params().At(i).Type()
-		fmt.Fprintf(&binds, "var %s_a%d %s = %s; ", id, i, types.TypeString(pt, q), nz.text(a))
+		argText := nz.text(a)
+		if lit, isLit := ast.Unparen(a).(*ast.FuncLit); isLit && pnames[i] != "_" && nz.argLitBindable(pk, callee, sig.Params().At(i), lit) {
+			p := sig.Params().At(i)
+			if nz.argLit == nil {
+				nz.argLit = map[types.Object]bool{}
+			}
+			nz.argLit[p], nz.closure[p], nz.declPkg[p] = true, lit, pk
+			nz.decl[p] = &ast.FuncDecl{Name: ast.NewIdent(p.Name()), Type: lit.Type, Body: lit.Body}
+			defer func() {
+				delete(nz.argLit, p)
+				delete(nz.closure, p)
+				delete(nz.declPkg, p)
+				delete(nz.decl, p)
+			}()
+			argText = fmt.Sprintf("\x00lit%d\x00", i)
+			argLits = append(argLits, boundLit{mark: argText, name: p.Name(), text: nz.text(a)})
+		}
+		fmt.Fprintf(&binds, "var %s_a%d %s = %s; ", id, i, types.TypeString(pt, q), argText)
 		if pnames[i] != "_" {
 			fmt.Fprintf(&body, "%s := %s_a%d; _ = %s; ", pnames[i], id, i, pnames[i])
 		} else {
@@ -714,10 +762,21 @@ func (nz *normalizer) expansion(pk *packages.Package, file *ast.File, site *inli
 		return "", nil, false
 	}
 	loop := fmt.Sprintf("%s: for { %s%s; break %s }; ", id, body.String(), flat, id)
+	// a literal argument all of whose calls were expanded is not evaluated any more (forming a closure has no
+	// effect; the variables it would capture stay plain locals); if a call of the parameter is left it stays
+	bindText := binds.String()
+	for _, bl := range argLits {
+		if identOccurs(flat, bl.name) {
+			bindText = strings.Replace(bindText, bl.mark, bl.text, 1)
+		} else {
+			bindText = strings.Replace(bindText, bl.mark, "nil", 1)
+			nz.Log = append(nz.Log, fmt.Sprintf("literal argument %s of %s expanded at its calls at %s", bl.name, objName(callee), nz.fset.Position(site.call.Pos())))
+		}
+	}
 	if guard != "" {
-		sb.WriteString("if " + guard + " { " + binds.String() + loop + "}; ")
+		sb.WriteString("if " + guard + " { " + bindText + loop + "}; ")
 	} else {
-		sb.WriteString(binds.String() + loop)
+		sb.WriteString(bindText + loop)
 	}
 	nz.Log = append(nz.Log, fmt.Sprintf("inlined %s at %s", objName(callee), nz.fset.Position(site.call.Pos())))
 	return sb.String(), temps, true
@@ -1298,6 +1357,77 @@ func (nz *normalizer) onlyCalled(callee types.Object, p *types.Var) bool {
 		return true
 	})
 	return ok && uses > 0
+}
+
+// boundLit: a function literal passed for a parameter that is only ever called (argLitBindable).
+type boundLit struct{ mark, name, text string }
+
+// argLitBindable: the literal lit, written as the argument for parameter p at a call of the declared helper callee,
+// may stand for p inside the inlined body: p is only ever called there (never assigned, compared, stored, passed on,
+// started as a goroutine: onlyCalled), so every `p(..)` IS a call of lit; helper and call are in one package (the
+// literal's text and the helper's text spell types and package-level names alike). The literal's own body must
+// satisfy the preconditions of any inlined body (no defer, recover, label, goto).
+//
+// Only a literal that is a CLOSURE - it uses a variable of the function it is written in - is expanded. Such a
+// literal is what hides the computation from the rules: go/ssa keeps every captured variable in a heap cell, the
+// accumulator the callback updates is no longer a value of the caller, and the callback's body is reached only
+// through a function value made at run time. A literal without free variables is an ordinary function with a
+// static callee; it stays a call, like a call of any declared function the pinned tree has.
+func (nz *normalizer) argLitBindable(pk *packages.Package, callee types.Object, p *types.Var, lit *ast.FuncLit) bool {
+	if _, isFn := callee.(*types.Func); !isFn || nz.declPkg[callee] != pk || nz.closure[p] != nil || lit.Body == nil {
+		return false
+	}
+	if !capturesLocal(pk.TypesInfo, lit) {
+		return false
+	}
+	if ok, _ := bodyInlinable(lit.Body); !ok {
+		return false
+	}
+	if ls, ok := lit.Type.Params, true; ok && ls != nil {
+		for _, f := range ls.List {
+			if _, isEll := f.Type.(*ast.Ellipsis); isEll {
+				return false
+			}
+		}
+	}
+	return nz.onlyCalled(callee, p)
+}
+
+// capturesLocal: the literal uses a variable (local, parameter, receiver, named result) of an enclosing function.
+func capturesLocal(info *types.Info, lit *ast.FuncLit) bool {
+	found := false
+	ast.Inspect(lit.Body, func(n ast.Node) bool {
+		id, ok := n.(*ast.Ident)
+		if !ok || found {
+			return !found
+		}
+		v, isVar := info.Uses[id].(*types.Var)
+		if !isVar || v.IsField() || v.Pkg() == nil || v.Parent() == nil || v.Parent() == v.Pkg().Scope() {
+			return true
+		}
+		if v.Pos() < lit.Pos() || v.Pos() >= lit.End() {
+			found = true
+		}
+		return !found
+	})
+	return found
+}
+
+// identOccurs: the identifier name is a token of the Go text src.
+func identOccurs(src, name string) bool {
+	fs := token.NewFileSet()
+	f := fs.AddFile("", fs.Base(), len(src))
+	var sc scanner.Scanner
+	sc.Init(f, []byte(src), func(token.Position, string) {}, 0)
+	for {
+		_, tok, lit := sc.Scan()
+		if tok == token.EOF {
+			return false
+		}
+		if tok == token.IDENT && lit == name {
+			return true
+		}
+	}
 }
 
 // genericInstance judges one call of a helper with type parameters. A call f(args) of a generic function f[P1, ...]
